@@ -122,6 +122,8 @@ std::map<IndexCombination4,std::vector<ComplexType> > TwoParticleGFContainer::co
 
             if (comm.rank() != sender) {
                 chi.setStatus(TwoParticleGF::Computed);
+                // the term lists have just been received: the part can be evaluated on this rank as well
+                if (!clearTerms) chi.parts[p]->Status = TwoParticleGFPart::Computed;
                  };
             };
     }
